@@ -233,6 +233,11 @@ def run(check, mirror, tier):
             jobs.append(lambda c, crate=crate, tag=tag, setup_ym=setup_ym, ky=ky, km=km: decide(
                 c, crate, "no_panic/ym_duration_literal/%d_%d/%s" % (ky, km, tag), setup_ym, no_post, replay_ym_literal, rb, models=c14.MODELS,
                 enums=c14.ENUMS, describe=desc, budget_s=600, min_paths=1, timeout_ms=20000, known_predicates=KNOWN_PRED))
+    # user-defined function invocation with fewer / more arguments than parameters (kernel shared with C01: no panic edge, null instead)
+    import checks.C01_ops as ops
+    import feelvals as fv_
+    crate_fe = MirCrate(mirror, ["feel-evaluator", "feel"], overflow_checks=True)
+    ops.jobs_for(check, mirror, rb, crate_fe, None, fv_.Universe(mirror), jobs, tier, KNOWN_PRED, select={"function_positional_job"})
     run_parallel(check, jobs)
 
 
